@@ -26,9 +26,17 @@ def table_seeded():
         m = json.load(open(mp))
         out.append("| `seeded/%s` | %s | %s | %s |" % (os.path.basename(d), m["property"], m["needs_to_manifest"].replace("|", "/"), m["caught_by"].replace("|", "/")))
     return "\n".join(out)
+def table_harmless():
+    out = ["| refactor (independent sub-agent) | patches | checks that must stay quiet | result |", "|---|---|---|---|"]
+    for d in sorted(glob.glob(os.path.join(V, "harmless", "*"))):
+        mp = os.path.join(d, "meta.json")
+        if not os.path.exists(mp): continue
+        m = json.load(open(mp))
+        out.append("| `harmless/%s`: %s | %s | %s | %s |" % (os.path.basename(d), m["summary"].replace("|", "/"), ", ".join(m["patches"]), ", ".join(m["properties"]), m["result"]))
+    return "\n".join(out)
 p = os.path.join(V, "DESIGN.md")
 s = open(p).read()
-for name, fn in (("SENSITIVITY", table_sens), ("DETERMINISM", table_det), ("SEEDED", table_seeded)):
+for name, fn in (("SENSITIVITY", table_sens), ("DETERMINISM", table_det), ("SEEDED", table_seeded), ("HARMLESS", table_harmless)):
     b, e = "<!-- BEGIN:%s -->" % name, "<!-- END:%s -->" % name
     if b in s and e in s:
         s = s[:s.index(b) + len(b)] + "\n" + fn() + "\n" + s[s.index(e):]
